@@ -281,12 +281,18 @@ def e_bounds():
 # ------------------------------------------------------------------ E7: zeroize (C18 C19)
 
 def e_zeroize():
-    fopts = [('plain', []), ('fqs', [opt(MList('Zeroize', [MPathM('fqs')]))]), ('skipZ', [opt(skip_meta(['Zeroize']))]),
-             ('skip', [opt('skip')]), ('skipDebug', [opt(skip_meta(['Debug']))])]
+    FQS = MList('Zeroize', [MPathM('fqs')])
+    fopts = [('plain', []), ('fqs', [opt(FQS)]), ('skipZ', [opt(skip_meta(['Zeroize']))]),
+             ('skip', [opt('skip')]), ('skipDebug', [opt(skip_meta(['Debug']))]),
+             # both options of a field in one attribute, in either order, and in two attributes
+             ('fqs,skipDebug', [opt(FQS, skip_meta(['Debug']))]), ('skipDebug,fqs', [opt(skip_meta(['Debug']), FQS)]),
+             ('fqs+skipDebug', [opt(FQS), opt(skip_meta(['Debug']))])]
     crate_opts = [None, P('::zeroize_'), P('krate::zeroize')]
     for (n0, b0), (n1, b1), (n2, b2) in itertools.product(fopts, repeat=3):
         for traits in (['Zeroize'], ['Zeroize', 'ZeroizeOnDrop'], ['ZeroizeOnDrop', 'Debug']):
-            if 'Zeroize' not in traits and 'fqs' in (n0, n1, n2):
+            if 'Zeroize' not in traits and any('fqs' in n for n in (n0, n1, n2)):
+                continue
+            if sum(',' in n or '+' in n for n in (n0, n1, n2)) > 1:
                 continue
             tr = list(traits)
             for shape in ('tuple', 'named'):
